@@ -2,4 +2,4 @@ import props.trees as T
 
 
 def run(chk):
-    return T.run(chk, "C12", T.view_c12, ["PV.Props.C12"], "C12 trees")
+    return T.run(chk, "C12", T.view_c12, ["PV.Props.C12", "PV.Props.C12morris", "PV.Props.C12clear"], "C12 trees")
